@@ -26,7 +26,8 @@ theorem unit_triangle_inRange (nu nv : Nat) (u : Bool) (h : nv ≤ nu) :
     ∀ f ∈ unit_triangleFaces nu nv u, ∀ k ∈ f, k < unit_triangleNVerts nu nv u := by
   rw [unit_triangle_nverts nu nv u h]
   intro f hf k hk
-  simp only [unit_triangleFaces, List.mem_flatMap, List.mem_range] at hf
+  rw [unit_triangleFaces_norm] at hf
+  simp only [unit_triangleFacesCanon, List.mem_flatMap, List.mem_range] at hf
   obtain ⟨j, hj, i, hi, hf⟩ := hf
   have hi' := List.all_eq_true.mp List.all_takeWhile i hi
   have hir := (List.takeWhile_sublist _).subset hi
